@@ -595,16 +595,17 @@ def brand_obligations(chk):
         ok, _ = prepare(chk, "C20 brand")
         if not ok:
             return False
-        res = build_and_audit(chk, "Props/C12.v", ["C12_callbacks"])
+        res = build_and_audit(chk, "Props/C12.v", ["C12_callbacks", "C12_args_share_brand"])
         good = all(res.values())
         chk.trusted.append("translator-api: signatures of arena.rs (binder structure of the closure bounds); rustc's HRTB generativity")
         if not good:
-            evals = [("callbacks", "map (fun f => (fs_name f, sb (callback_ok decls f))) (callback_fns arena_fns)")]
+            evals = [("callbacks", "map (fun f => (fs_name f, sb (callback_ok decls f))) (callback_fns arena_fns)"),
+                     ("args_brand", "map (fun f => (fq f, sb (ModelSigs.args_share_brand decls (branded (mk_adts decls)) f))) GenSigs.pub_fns")]
             try:
                 okr, rep, out = model_report("c20_brand_report", evals)
             except Exception as e:  # pragma: no cover
                 okr, rep, out = False, {}, str(e)
-            bad = [k for k, v in rep.get("callbacks", []) if v != "true"]
+            bad = [k for k, v in rep.get("callbacks", []) if v != "true"] + ["%s (arguments at different / anonymous brands)" % k for k, v in rep.get("args_brand", []) if v != "true"]
             chk.obligation("C12_callbacks: callback-taking functions whose closure bound does not bind the brand with for<'gc>", False,
                            ", ".join(bad) or out[-1200:])
             chk.cov["c20_brand_offenders"] = bad
